@@ -172,7 +172,7 @@ PROPS["C05"] = {
     "level_text": ("Generated configurations (cookie secret, NSID, chaos, client and per-entry rate limits, hosts file, empty zones), upstream tables (positive, CNAME chains fully/partly present, NXDOMAIN, NODATA, RRSIG-bearing with generated windows, >1232/>4096-byte answers, SERVFAIL with/without EDE, EDE-bearing answers with foreign OPT options, ECS-scoped answers, escaped/binary labels) "
                    "and histories of byte-level query packets (every flag, opcodes, classes, OPT versions/ext-rcode/options incl. hand-encoded malformed ECS, count edits, truncation, compression pointers, trailing bytes) and sleeps are run twice on the real default chain - all packets wire-born vs all decoded - under identical virtual clocks; in half of the cases three quarters of the wire-born UDP packets enter the way the batch UDP reader drives them (Server.ServeRawInline, and Server.ServeRawReplay of the same packet when the inline pass hands it off without writing), and one case in three with a per-entry limit carries a burst on one cached question whose answer does not fit the client's datagram, so a token charged twice across the two passes empties the bucket one packet early; "
                    "decoded replies (header bits, rcode, question, per-section record multisets with TTLs, OPT version/size/DO/options), drop-vs-reply, cache contents with remaining lifetimes, failure-cache state and the upstream call count must be identical after every step. Thorough tier only: unit 'parsewire-fuzz' drives Request.ParseWire with Go's coverage-guided fuzzer (seeded with EDNS / cookie / NSID / keepalive / ECS questions): whatever it accepts the library must decode, and every accessor the chain reads (ID, type, class, flags, opcode, OPT presence, size, DO, version, option presence, cookie halves, materialised question) must equal the decoded request's. Exploration."),
-    "level_note": "Trusted: miekg/dns Unpack for decoding both transcripts; the harness transports stand in for the UDP/TCP engine jobs (StrictSlots + LeaseWire). Subtree-cut / RFC 8198 admission needs resolver provenance: in two thirds of the cases the stub serves a zone (sz.example.org.) whose NXDOMAIN / NODATA answers carry complete NSEC proofs and are marked through the resolver-to-cache provenance seam (middleware.MarkValidatedNegativeProofResponse) for CD=0 resolutions, exactly as the validating resolver marks them, so the wire ladder's cut rung and the decoded denial rungs are reached (class wire:cut_served). The inline pass and the replay are called back to back on one goroutine; the reader/worker hand-over of the real engine (ring, staged burst) is C10's ground.",
+    "level_note": "Trusted: miekg/dns Unpack for decoding both transcripts; the harness transports stand in for the UDP/TCP engine jobs (StrictSlots + LeaseWire). Subtree-cut / RFC 8198 admission needs resolver provenance: in two thirds of the cases the stub serves a zone (sz.example.org.) whose NXDOMAIN / NODATA answers carry complete NSEC proofs and are marked through the resolver-to-cache provenance seam (middleware.MarkValidatedNegativeProofResponse) for CD=0 resolutions, exactly as the validating resolver marks them, so the wire ladder's cut rung and the decoded denial rungs are reached (class wire:cut_served). The wire-born transport job (request, chain, deadline carrier and edns writer slot it owns) is reused from packet to packet, whoever sent it, as the engines reuse their slabs. The inline pass and the replay are called back to back on one goroutine; the reader/worker hand-over of the real engine (ring, staged burst) is C10's ground.",
     "rule": ("evaluations = histories (2-14 steps, each run twice). Non-trivial = the wire run really served from the byte ladder (exact hit, alias chase or cached failure, measured from dns_cache_wire_fastpath_total deltas) or contained a byte-edited packet; distinct = hash(step shapes, config)."),
     "units": {
         "parsewire-fuzz": {"pkg": "./middleware", "engine": "fuzz", "fuzz": "FuzzVerifC05ParseWire", "run": "^FuzzVerifC05ParseWire$",
